@@ -21,11 +21,12 @@ CONS_CFG = "INIT ConsInit\nNEXT JudgeNext\nCHECK_DEADLOCK FALSE\n"
 WHY_CFG = "INIT WhyInit\nNEXT JudgeNext\nCHECK_DEADLOCK FALSE\n"
 RUN_CFG = "INIT RunInit\nNEXT JudgeNext\nCHECK_DEADLOCK FALSE\n"
 FOLD_CFG = "INIT FoldInit\nNEXT JudgeNext\nCHECK_DEADLOCK FALSE\n"
-VM_CONST = "CONSTANTS StepLimit = 4  StackLimit = 2  PollInterval = 2  N = 1  MaxSub = 1  MaxSubRuns = 2  Devs = %s\n"
-VM_DESIGN = VM_CONST % "{}" + ("SPECIFICATION Spec\nINVARIANTS TypeOK StepBound SubStepBound StackBound PollBound WorkBound SubWorkBound Outcome\n"
+VM_CONST = "CONSTANTS StepLimit = 4  StackLimit = 2  PollInterval = 2  Deadlines = {3, 8, 1000}  N = 1  MaxSub = 1  MaxSubRuns = 2  Devs = %s\n"
+VM_DESIGN = VM_CONST % "{}" + ("SPECIFICATION Spec\nINVARIANTS TypeOK StepBound SubStepBound StackBound PollBound LateBound WorkBound SubWorkBound Outcome\n"
                               "PROPERTY Terminates\n")
 VM_ASIS = VM_CONST % '{"Dev_SubNoStepLimit"}' + ("SPECIFICATION Spec\nINVARIANTS TypeOK StepBound SubStepBound StackBound PollBound WorkBound Outcome\n"
                                                   "CONSTRAINT SubCap\n")
+VM_PERRUN = VM_CONST % '{"Var_PollPerRun"}' + "SPECIFICATION Spec\nINVARIANTS TypeOK StepBound SubStepBound StackBound WorkBound SubWorkBound Outcome %s\n"
 SPECIAL_PROCS = 8
 CHANNELS = ["api", "literal", "RegExp()", "new RegExp()", "'s'.match(P)", "'s'.search(P)"]
 
@@ -35,22 +36,38 @@ def cpu():
     return t.children_user + t.children_system + t.user + t.system
 
 
+ALL_PARTS = ("models", "construction", "matching", "folding")
+
+
 def run(rep):
     t0 = time.time()
+    # C10_PARTS: development / mutant runs of some parts only (never reported as exhaustive)
+    parts = [x for x in os.environ.get("C10_PARTS", ",".join(ALL_PARTS)).split(",") if x]
+    if any(x not in ALL_PARTS for x in parts):
+        raise Machinery("C10_PARTS: unknown part in %r" % (parts,))
     phases = rep.notes.setdefault("phase_wall_s", {})
-    # (a) the budget model
-    res = tlc.run(rep.pid, "RegexVM", VM_DESIGN, timeout=3600, tag="vm_design", workers=8)
-    rep.add_tlc("RegexVM(design: budgets in every loop kind)", res)
-    if res.distinct < 50000:
-        raise Machinery("RegexVM design model explored only %d states" % res.distinct)
-    res2 = tlc.run(rep.pid, "RegexVM", VM_ASIS, timeout=3600, tag="vm_asis", workers=8)
-    rep.add_tlc("RegexVM(as-is: sub-matchers without step budget)", res2, must_hold=False)
-    if res2.violated != ["SubStepBound"]:
-        raise Machinery("as-is RegexVM model: expected exactly SubStepBound to fail, got %r" % (res2.violated,))
-    rep.notes["model_asis"] = ("SubStepBound fails when the sub-matcher loops do not compare their step count with step_limit (the defect "
-                               "F-C10-sub-no-step-limit, repaired in the engine by dd4ff18; an observation of it is a violation again)")
-    res3 = tlc.run(rep.pid, "C10", LAW_CFG, timeout=3600, tag="laws")
-    rep.add_tlc("C10.AcceptorLaws(strings<=3)", res3)
+    if "models" in parts:
+        # (a) the budget model
+        res = tlc.run(rep.pid, "RegexVM", VM_DESIGN, timeout=3600, tag="vm_design", workers=8)
+        rep.add_tlc("RegexVM(design: budgets in every loop kind)", res)
+        if res.distinct < 50000:
+            raise Machinery("RegexVM design model explored only %d states" % res.distinct)
+        res2 = tlc.run(rep.pid, "RegexVM", VM_ASIS, timeout=3600, tag="vm_asis", workers=8)
+        rep.add_tlc("RegexVM(as-is: sub-matchers without step budget)", res2, must_hold=False)
+        if res2.violated != ["SubStepBound"]:
+            raise Machinery("as-is RegexVM model: expected exactly SubStepBound to fail, got %r" % (res2.violated,))
+        rep.notes["model_asis"] = ("SubStepBound fails when the sub-matcher loops do not compare their step count with step_limit (the defect "
+                                   "F-C10-sub-no-step-limit, repaired in the engine by dd4ff18; an observation of it is a violation again)")
+        for inv in ("PollBound", "LateBound"):
+            res4 = tlc.run(rep.pid, "RegexVM", VM_PERRUN % inv, timeout=3600, tag="vm_perrun_" + inv, workers=8)
+            rep.add_tlc("RegexVM(variant: polling paced by the step count of the current run; %s)" % inv, res4, must_hold=False)
+            if res4.violated != [inv]:
+                raise Machinery("per-run-polling RegexVM model: expected exactly %s to fail, got %r" % (inv, res4.violated))
+        rep.notes["model_poll_per_run"] = ("PollBound and LateBound fail when each run (attempt, sub-matcher activation) paces polling with its own step count: "
+                                           "runs shorter than the poll interval add up to unpolled work; the conformance half observes this through "
+                                           "the short-run families (poll-bound, deadline-overrun)")
+        res3 = tlc.run(rep.pid, "C10", LAW_CFG, timeout=3600, tag="laws")
+        rep.add_tlc("C10.AcceptorLaws(strings<=3)", res3)
     res = tlc.run(rep.pid, "C10", ENUM_CFG, env={"TIER": rep.tier}, timeout=3600, tag="enum")
     rep.add_tlc("C10.Enum", res)
     kinds = {}
@@ -59,18 +76,23 @@ def run(rep):
     if not all(k in kinds for k in ("strings", "flags", "special", "family", "fold")):
         raise Machinery("enumeration incomplete: %r" % list(kinds))
     phases["models_laws_enum"] = round(time.time() - t0, 1)
-    t0 = time.time()
-    construction(rep, kinds["strings"][0], kinds["flags"][0], kinds["special"])
-    phases["construction"] = round(time.time() - t0, 1)
-    t0 = time.time()
-    matching(rep, kinds["family"])
-    phases["matching"] = round(time.time() - t0, 1)
-    t0 = time.time()
-    folding(rep, kinds["fold"])
-    phases["folding"] = round(time.time() - t0, 1)
-    rep.exhaustive = True
-    rep.notes["rule"] = ("construction: one judged evaluation = one (pattern string, channel); matching: one judged run = (family, subject length, mode) "
-                         "with per-loop-kind step counts, stack high-water mark and poll count; folding: one judged evaluation = one "
+    if "construction" in parts:
+        t0 = time.time()
+        construction(rep, kinds["strings"][0], kinds["flags"][0], kinds["special"])
+        phases["construction"] = round(time.time() - t0, 1)
+    if "matching" in parts:
+        t0 = time.time()
+        matching(rep, kinds["family"])
+        phases["matching"] = round(time.time() - t0, 1)
+    if "folding" in parts:
+        t0 = time.time()
+        folding(rep, kinds["fold"])
+        phases["folding"] = round(time.time() - t0, 1)
+    rep.exhaustive = len(parts) == len(ALL_PARTS) and "partial_run_maxlen" not in rep.notes
+    if not rep.exhaustive:
+        rep.notes["partial_run"] = parts
+    rep.notes["rule"] = ("construction: one judged evaluation = one (pattern string, channel); matching: one judged run = (family, subject length, run configuration) "
+                         "with per-loop-kind step counts, stack high-water mark, poll count and steps after the deadline; folding: one judged evaluation = one "
                          "(pattern, flags, subject, operation)")
     rep.assumptions += ["RegexSem's acceptor: accept = in the grammar of ECMA-262 22.2.1, reject = not even in Annex B.1.2, anything between is not judged",
                         "a run longer than the counting cap is judged on its observed prefix (bounded by counting, DESIGN 6)"]
@@ -85,18 +107,28 @@ def words(vocab, maxlen):
 
 def construction(rep, strings, flags, specials):
     vocab, maxlen = strings["vocab"], strings["maxlen"]
+    if os.environ.get("C10_MAXLEN"):                   # development / mutant runs: shorter strings (never reported as exhaustive)
+        maxlen = min(maxlen, int(os.environ["C10_MAXLEN"]))
+        rep.notes["partial_run_maxlen"] = maxlen
     total = sum(len(vocab) ** n for n in range(maxlen + 1))
     rep.spaces.append({"space": "all strings over %d metacharacters up to length %d x %d channels (+ uncaught forms up to length 3)" % (len(vocab), maxlen, len(CHANNELS)),
                        "strings": total, "complete": True})
     extras = []
     for fs in words(flags["letters"], flags["maxlen"]):
         extras.append({"p": [97], "fl": "".join(chr(c) for c in fs), "flu": fs, "uncaught": False})
+    nnum = 0
     for s in specials:
         # the huge counts over empty bodies cost about a second per construction where the engine refuses them as too large:
         # every channel in its try/catch form (the uncaught forms of the same sites are exercised by all other specials and strings)
-        extras.append({"p": s["head"] + s["unit"] * s["count"] + s["tail"], "expect": s["expect"], "name": s["name"],
-                       "uncaught": not s["name"].startswith("emptyrep-"), "wall": 120.0, "nolit": s["name"].startswith("quant-huge")})
-    rep.spaces.append({"space": "flag strings up to length %d over %s; %d special constructions" % (flags["maxlen"], "".join(chr(c) for c in flags["letters"]), len(specials)),
+        e = {"p": s["head"] + s["unit"] * s["count"] + s["tail"], "expect": s["expect"], "name": s["name"],
+             "uncaught": s.get("uncaught", not s["name"].startswith("emptyrep-")), "wall": 120.0, "nolit": s["name"].startswith("quant-huge"),
+             "alone": s.get("heavy", True)}            # a process of its own, unless the spec says the construction is a light one
+        if "numrule" in s:                             # numeric-payload family: flags, and what the judge needs to name a deviation
+            e.update(fl=wire.from_units(s["fl"]), numrule=s["numrule"], payload=s["payload"])
+            nnum += 1
+        extras.append(e)
+    rep.spaces.append({"space": "flag strings up to length %d over %s; %d special constructions, %d of them numeric payloads (forms x magnitudes / shapes)"
+                                % (flags["maxlen"], "".join(chr(c) for c in flags["letters"]), len(specials), nnum),
                        "cases": len(extras), "complete": True})
     if rep.tier == "thorough":
         rnd = random.Random(rep.seed)
@@ -139,9 +171,11 @@ def construction(rep, strings, flags, specials):
         c0, w0 = cpu(), time.time()
         # a special is a batch and a child process of its own, next to the 16 that share the batches of 400 strings (some specials
         # take seconds per channel: in one batch, as they were, they made one child the last to finish by far)
-        alone = [it for it in items if "name" in it]
+        alone = [it for it in items if it.get("alone")]
+        light = [it for it in items if "name" in it and not it.get("alone")]
         rest = [it for it in items if "name" not in it]
         batches = [{"id": k, "items": rest[k:k + 400]} for k in range(0, len(rest), 400)]
+        batches += [{"id": 10**7 + k, "items": light[k:k + 15]} for k in range(0, len(light), 15)]
         rnd2 = random.Random(1)
         rnd2.shuffle(batches)
         with ThreadPoolExecutor(max_workers=SPECIAL_PROCS) as ex:
@@ -166,7 +200,10 @@ def construction(rep, strings, flags, specials):
                 if "work" not in r:
                     raise Machinery("no compile-work count for special %s" % it["name"])
                 rec["work"] = r["work"]
-                works[it["name"]] = r["work"] + [r.get("cpu_s")]
+                if "numrule" in it:
+                    rec["numrule"], rec["payload"] = it["numrule"], it["payload"]
+                else:
+                    works[it["name"]] = r["work"] + [r.get("cpu_s")]
             else:
                 rec["p"] = it["p"]
             recs.append(rec)
@@ -264,7 +301,7 @@ def folding(rep, chars):
 
 def show_cons(it):
     if "name" in it:
-        return "special:" + it["name"]
+        return "special:" + it["name"] + (" %r flags %r" % (wire.from_units(it["p"][:40]), it.get("fl", "")) if "numrule" in it else "")
     return "pattern %r flags %r" % (wire.from_units(it["p"]), it.get("fl", ""))
 
 
@@ -273,44 +310,62 @@ def report(rep, it, chan, out, cls, dev, why):
 
 
 # ------------------------------------------------------------------------------------------------
+def cfg_label(c):
+    d = ", deadline %d steps" % c["deadline"] if c["deadline"] else ""
+    if c["mode"] == "api":
+        return "api poll_interval=%d%s" % (c["interval"], d)
+    return "script %s%s /%s%s" % (c["op"], " in try/catch" if c["form"] == "try" else "", wire.from_units(c["fl"]), d)
+
+
 def matching(rep, families):
     quick = rep.tier == "quick"
-    cap = 1_500_000 if quick else 8_000_000
+    caps = {"main": 1_500_000 if quick else 8_000_000, "aux": 400_000 if quick else 1_500_000}
     cases = []
     for f in sorted(families, key=lambda f: f["fam"]):
-        for n in sorted(f["lengths"]):
-            for mode in sorted(f["modes"]):
-                if mode == "script" and n > 100:
-                    continue                  # without a deadline the script-level run is only taken where it ends below the cap
-                cases.append({"id": len(cases), "fam": f["fam"], "src": f["src"], "unit": f["unit"], "tail": f["tail"], "n": n, "mode": mode,
-                              "cap": cap, "deadline": 20000, "wall": 600.0})
-    rep.spaces.append({"space": "catastrophic families x subject lengths x modes, counted through the hook (cap %d steps)" % cap,
-                       "runs": len(cases), "complete": True})
+        for c in sorted(f["runs"], key=lambda c: json.dumps(c, sort_keys=True)):
+            for n in sorted(c["lens"]):
+                cfg = {k: c[k] for k in ("mode", "interval", "op", "fl", "form", "deadline")}
+                cases.append({"id": len(cases), "fam": f["fam"], "src": f["src"], "unit": f["unit"], "tail": f["tail"], "n": n, "cfg": cfg,
+                              "cap": caps[c["cap"]], "wall": 600.0})
+    rep.spaces.append({"space": "matching families (long-run and short-run) x subject lengths x run configurations (package API x poll interval, "
+                                "script entry points x flags x try/catch) x deadlines, counted through the hook (caps %d / %d steps)" % (caps["main"], caps["aux"]),
+                       "families": len(families), "runs": len(cases), "complete": True})
     rnd = random.Random(2)
     order = cases[:]
     rnd.shuffle(order)
+    # longest first within 16 processes of their own (engine.run_cases would use len // 20 processes)
+    order.sort(key=lambda c: -(c["cap"] if not c["cfg"]["deadline"] and c["n"] >= 100 else 0))
     c0 = cpu()
-    results = engine.run_cases(rep.pid, order, driver="checks.c10_driver:run_driver", tag="eng_run", procs=16, timeout=14400)
+    with ThreadPoolExecutor(max_workers=16) as ex:
+        futs = [ex.submit(engine.run_cases, rep.pid, order[k::16], driver="checks.c10_driver:run_driver", tag="eng_run_%d" % k, procs=1, timeout=14400)
+                for k in range(16) if order[k::16]]
+        results = [r for f in futs for r in f.result()]
     rep.notes["matching_engine_cpu_s"] = round(cpu() - c0, 1)
+    if len(results) != len(cases):
+        raise Machinery("engine returned %d results for %d runs" % (len(results), len(cases)))
     recs = []
     for r in results:
         c = cases[r["id"]]
-        recs.append(dict(r, fam=c["fam"], n=c["n"], mode=c["mode"]))
-    verdicts, st, tr, wall = tlc.judge(rep.pid, "C10", recs, RUN_CFG, tag="judge_run", shards=4, timeout=3600)
+        recs.append(dict(r, fam=c["fam"], n=c["n"], cfg=c["cfg"]))
+    verdicts, st, tr, wall = tlc.judge(rep.pid, "C10", recs, RUN_CFG, tag="judge_run", shards=8, timeout=3600)
     got = {v["id"]: v for v in verdicts}
     if len(got) != len(recs):
         raise Machinery("judge returned %d verdicts for %d runs" % (len(got), len(recs)))
     outcomes = {}
+    worst = {}
     for rec in recs:
         v = got[rec["id"]]
         c = cases[rec["id"]]
         outcomes[rec["out"]] = outcomes.get(rec["out"], 0) + 1
-        label = "/%s/ on %r x %d [%s]" % (wire.from_units(c["src"]), wire.from_units(c["unit"]), c["n"], c["mode"])
-        if not v["bad"] and len(rep.samples) < 6 and rec["id"] % 37 == 3:
-            rep.sample({"case": label, "engine": {k: rec[k] for k in ("out", "attempts", "steps", "maxstep", "maxstack", "polls")}, "verdict": "pass"})
+        if c["cfg"]["deadline"]:
+            worst[c["cfg"]["mode"]] = max(worst.get(c["cfg"]["mode"], 0), rec["late"])
+        label = "/%s/ on %r x %d [%s]" % (wire.from_units(c["src"]), wire.from_units(c["unit"]), c["n"], cfg_label(c["cfg"]))
+        if not v["bad"] and rec["id"] % 97 == 3:
+            rep.sample({"case": label, "engine": {k: rec[k] for k in ("out", "attempts", "steps", "maxstep", "maxstack", "polls", "late")}, "verdict": "pass"}, limit=6)
         for b in v["bad"]:
-            rep.mismatch(label + " " + b, {"expected": "RegexVM bounds / defined outcome", "actual": {k: rec[k] for k in ("out", "ty", "attempts", "steps", "maxstep", "maxstack", "polls", "len")},
+            rep.mismatch(label + " " + b, {"expected": "RegexVM bounds / defined outcome", "actual": {k: rec[k] for k in ("out", "ty", "where", "attempts", "steps", "maxstep", "maxstack", "polls", "late", "len")},
                                            "clause": b, "case": c}, dev="" if b.startswith("!") else b)
     rep.add_judge(len(recs), st, tr)
     rep.evaluations = (rep.evaluations or 0) + len(recs)
     rep.notes["matching_outcomes"] = outcomes
+    rep.notes["matching_worst_late_steps_after_deadline"] = worst
